@@ -187,7 +187,7 @@ def enumerate_model(src, rep, it, writer):
     rep.extracted["deviations"] = bad
 
 
-PROBE_TEXTS = ["e\u0301", "\u212b\u1100\u1161", "\uf900", "a\n", "\n", "a\r\nb", "a\rb", "a\x0bb", "a\x0cb", "a\u2028b", "\tx ", "   ", " a", "a ", "\u00e9\u2713\uff25", "x" * 40, "0", "m", "[31m"]
+PROBE_TEXTS = ["\u0301x", "\u0301", "\u200dx", "\ufe0fa", "e\u0301", "\u212b\u1100\u1161", "\uf900", "a\n", "\n", "a\r\nb", "a\rb", "a\x0bb", "a\x0cb", "a\u2028b", "\tx ", "   ", " a", "a ", "\u00e9\u2713\uff25", "x" * 40, "0", "m", "[31m"]
 PROBE_ATTS = [{"fg": 31}, {"bg": 44}, {"bold": True}, {"dark": True}, {"italic": True}, {"underline": True}, {"blink": True}, {"invert": True},
               {"fg": 32, "bg": 41, "bold": True}, {"bg": 47, "underline": False}, {}]
 
@@ -245,6 +245,30 @@ def concrete_probes(src, rep, it):
     else:
         rep.ob("F3-concrete-text-probes", f.where(), f.scope, "writer on concrete texts (line boundaries, blanks, wide characters, parameter look-alikes)", True)
     rep.extracted["concrete_probes"] = n
+
+
+def derived(src, rep, it):
+    """str() of values arrived at through a history (every public operation on base values that were looked at first): what a
+    terminal shows for it must be the value's own runs, default state at the end."""
+    from ..derive import derived_values
+    from ..models import view_problem
+    f = src.func("formatstring", "FmtStr.__str__")
+    bad = []
+    vals = derived_values(it)
+    for how, v in vals:
+        rep.case(True)
+        why = v[1] if isinstance(v, tuple) else view_problem(it, v)
+        if why is not None:
+            bad.append((how, why))
+    rep.extracted["derived_values"] = len(vals)
+    if len(vals) < 80:
+        raise AnalysisError("only %d derived values could be built" % len(vals))
+    if bad:
+        bad.sort(key=lambda x: len(x[0]))
+        rep.ob("J4-derived-values-display-their-own-runs", f.where(), f.scope, "str() of every value of the derived pool", False,
+               "%s: %s (%d of %d derived values)" % (bad[0][0], bad[0][1], len(bad), len(vals)), witness={"made by": bad[0][0]})
+    else:
+        rep.ob("J4-derived-values-display-their-own-runs", f.where(), f.scope, "str() of every value of the derived pool", True)
 
 
 def _st(state):
@@ -385,6 +409,7 @@ def check(src, rep):
     rep.guard(enumerate_model, src, rep, it, writer)
     rep.guard(concrete_probes, src, rep, it)
     rep.guard(joining, src, rep, it, writer)
+    rep.guard(derived, src, rep, it)
     rep.guard(cache_coherence, src, rep)
     rep.floor("wrapper templates", len(templates or {}), 6)
     rep.floor("attribute sets enumerated", rep.model_cases, 5000)
